@@ -1,0 +1,7 @@
+// Package simhook holds the interleaving points used by the deterministic
+// simulator that lives outside this repository. Without the build tag
+// `verif` every function here is empty and is inlined away, so shipped
+// behaviour is unchanged. With the tag the calls are forwarded to a
+// simulator registered at run time; while none is registered they return
+// immediately.
+package simhook
